@@ -253,7 +253,7 @@ PROPS = {
                 "from the protocol format); for a decline only the audience is asserted; a 'burst' action and TestC12Burst (6 members, 20-40 rounds per "
                 "world) let several members send at the same instant while another member leaves: every staying member must receive every "
                 "line exactly once (handlers of different connections run concurrently); non-trivial = some action whose audience was a "
-                "strict non-empty subset of the connected clients; distinct = hash(history, client specs); leave requests by users who are not members of the chat (never were, only invited, left already) must not change the membership: the next line by a member reaches every member; clients come in pairs that are two sessions of one account, and an administrator changes an account's read/send/open-chat privileges by set-user while its sessions are connected (the audience follows the account, for every session); requests naming a chat the server does not know (set-subject, send, join, leave, decline) reach nobody and do not disturb later chat traffic (a wedged chat manager is reported by the real-time watchdog)",
+                "strict non-empty subset of the connected clients; distinct = hash(history, client specs); leave requests by users who are not members of the chat (never were, only invited, left already) must not change the membership: the next line by a member reaches every member; clients come in pairs that are two sessions of one account, and an administrator changes an account's read/send/open-chat privileges by set-user while its sessions are connected (the audience follows the account, for every session); requests naming a chat the server does not know (set-subject, send, join, leave, decline) reach nobody and do not disturb later chat traffic (a wedged chat manager is reported by the real-time watchdog); restart action: the server is rebuilt from its files, every session and chat is gone and the accounts carry the chat privileges the files say",
         "assumptions": ["presence notifications (301/302) are ignored here (C13)", "refuse-private-chat option stays off (C13)", "only members send to / act on a chat; unknown chat ids are hostile input (C03)"],
         "quick": {"runs": [{"test": "^TestC12$", "shards": 10, "checks": 100, "timeout": 600},
                            {"test": "^TestC12Burst$", "shards": 6, "checks": 25, "timeout": 600}]},
